@@ -7,6 +7,13 @@ ConversionsKeepColumns, StepIndices, and emits every transition (edge) and, per 
 expected columns, rational statistics and the variable <-> row mapping handed to arviz.  This module drives real
 cuqi.samples.Samples / JointSamples objects along every edge (objects are reached through real calls only) and along
 seeded random chains of three operations, comparing after every action.
+
+Frame machine (FInit / FNext of the same module): a heap of sample-set objects and the caller's ONE list of chains under
+FStat / FEss / FToArviz / FRhat(list | single) / FBurnthin / FConv and the caller's own FThinList / FSwapList; TLC checks the
+action property Frame (no action alters an existing object; the list is altered by no library action) and RhatFunctional
+(chains entering R-hat = the receiver followed by the list as the caller last set it); the harness replays every edge on one real
+heap and one real list per walk with deep fingerprints of the receiver and every argument around every call and compares
+the result of every call - first, repeated, repeated after all other operations - with the value the spec determines.
 """
 META = {
     "claimed": True,
@@ -18,9 +25,18 @@ META = {
              "(six named deviations must each violate their invariant), and emits every transition plus exact rational "
              "statistics; the harness replays every transition and seeded chains of three operations on real Samples / "
              "JointSamples objects (columns encode their index; arrays compared exactly, statistics to rtol 1e-12) and "
-             "intercepts arviz.ess / arviz.rhat to compare the dictionary handed over and the order of the result. Code -> "
+             "intercepts arviz.ess / arviz.rhat to compare the dictionary handed over and the order of the result. A second "
+             "state machine of the same module (heap of sample-set objects, the caller's one list of chains; statistics, "
+             "ESS, name->row mapping, R-hat with the list or a single chain, burnthin, conversions, and the caller thinning "
+             "or replacing list elements) is model-checked for Frame (no operation alters its receiver, its arguments or any "
+             "other object) and RhatFunctional (two further deviations, RhatInsertsSelf and ConvInPlace, must violate them); "
+             "every edge of its graph and seeded walks of four calls are replayed on one real heap and one real list with "
+             "deep fingerprints around every call, every call (first, repeated, repeated after all other operations) compared "
+             "with the spec's value (R-hat / ESS reference: arviz applied to the spec's arrays stacked in the spec's order). Code -> "
              "spec: calls recorded from a seeded random driver (chains up to 200 samples) and, in the thorough tier, from "
-             "tests/test_samples.py and tests/test_geometry.py are validated by TLC against TraceSamplesOps.tla."),
+             "tests/test_samples.py and tests/test_geometry.py are validated by TLC against TraceSamplesOps.tla (flag automaton, "
+             "indices, and the recorded frame of every call incl. compute_rhat: receiver, list length, element identities and "
+             "contents before / after)."),
     "note": ("Bounded chain lengths, burn-in / thinning boxes, eight fixed small geometries and a finite set of credibility "
              "levels; statistics are compared on integer-valued chains with distinct entries per coordinate. "
              "Samples.vector for Continuous2D function values (not implemented by the library) and ESS/R-hat of "
@@ -37,7 +53,9 @@ from fractions import Fraction
 import numpy as np
 
 DEVIATIONS = [("offbyone", "Indices"), ("boundary", "NonEmpty"), ("dropflag", "FlagsPreserved"),
-              ("inplace", "SourceUntouched"), ("lexorder", "UnpermutedInv"), ("jointnothin", "Indices")]
+              ("inplace", "SourceUntouched"), ("lexorder", "UnpermutedInv"), ("jointnothin", "Indices"),
+              # frame machine: RhatInsertsSelf (compute_rhat inserts the receiver into the caller's list), ConvInPlace
+              ("rhatinsertsself", "Frame"), ("rhatinsertsself_fn", "RhatFunctional"), ("convinplace", "Frame")]
 
 RTOL = 1e-12
 
@@ -202,6 +220,7 @@ def step(ctx, graph, ck, geoms, live, e, chain_ops):
     sig = "%s/%s/%s/b=%d/t=%d" % (op["name"], cstr(c), ostr(e["pre"]), op["b"], op["t"])
     case = {"kind": "chain", "c": c, "ops": chain_ops + [op]}
     ctx.case((op["name"], ck, okey(e["pre"]), op["b"], op["t"]), facet=op["name"])
+    recv_members = [(k, id(v)) for k, v in live.real.items()] if isinstance(live.real, JointSamples) else None
     try:
         with warnings.catch_warnings():
             warnings.simplefilter("ignore")
@@ -209,6 +228,25 @@ def step(ctx, graph, ck, geoms, live, e, chain_ops):
         raised = None
     except Exception as ex:          # noqa: BLE001  (exception *types* are not asserted)
         res, raised = None, ex
+    if recv_members is not None and [(k, id(v)) for k, v in live.real.items()] != recv_members:
+        ctx.mismatch("frame/%s/receiver_members" % sig, case, "JointSamples.burnthin altered the receiving dictionary (keys / member "
+                     "identities)", [k for k, _ in recv_members], list(live.real.keys()))
+        return None
+    # the same call again on the same receiver: same outcome (the members' contents are compared by check_untouched below)
+    try:
+        with warnings.catch_warnings():
+            warnings.simplefilter("ignore")
+            res2 = apply_op(live.real, op)
+        raised2 = None
+    except Exception as ex:          # noqa: BLE001
+        res2, raised2 = None, ex
+    if (raised is None) != (raised2 is None) or (raised is None and not all(
+            _val_equal(a, b) for a, b in zip(members(res), members(res2)))):
+        ctx.mismatch("repeat/" + sig, case, "a repeated call on the same receiver with the same arguments gave a different outcome",
+                     repr(raised) if raised is not None else [m.samples for m in members(res)],
+                     repr(raised2) if raised2 is not None else [m.samples for m in members(res2)])
+        return None
+    ctx.facets["repeated_calls"] = ctx.facets.get("repeated_calls", 0) + 1
     if e["err"]:
         if raised is None:
             ctx.mismatch("refusal/" + sig, case, "burn-in >= number of samples must be refused; the call returned",
@@ -482,6 +520,561 @@ def run_deviations(ctx):
 
 
 # ---------------------------------------------------------------------------------------------------------------
+# FRAME MACHINE of SamplesOps.tla (FInit / FNext): every operation is a function of <<receiver, arguments>> and alters
+# neither.  TLC emits the graph over <<heap of objects, the caller's list of chains>>; the harness keeps ONE real heap
+# and ONE real Python list per walk and, around every real call, takes a deep fingerprint of every live object and of
+# every argument (the list: length and element identities in order; index array: values) - independent of the spec -
+# and compares the result of every call (first, immediately repeated, repeated after all other operations) with the
+# value the spec determines for the state.
+FRAME_OPS = ("stat", "ess", "toarviz", "rhat", "burnthin", "conv", "thinlist", "swaplist")
+
+
+def fokey(o):
+    return (int(o["ch"]), tuple(o["cols"]), bool(o["par"]), bool(o["vec"]), o["geom"])
+
+
+def fckey(c):
+    return (c["g"], int(c["N"]), int(c["lst"]))
+
+
+def fskey(fo, fl):
+    return (tuple(fokey(o) for o in fo), tuple(int(i) for i in fl))
+
+
+def fopkey(op):
+    return (op["name"], int(op["r"]), int(op["b"]), int(op["t"]), op["arg"])
+
+
+def rows_array(rows):
+    """exact array of an object from the spec's rows [pos, vals]"""
+    return expected_array(rows, len(rows[0]["vals"]))
+
+
+class FrameGraph:
+    def __init__(self, cases):
+        self.configs, self.nodes, self.edges, self.rows, self.stats, self.init = {}, {}, {}, {}, {}, {}
+        for k in cases:
+            if k["kind"] == "fnode":
+                ck = fckey(k["c"])
+                self.configs.setdefault(ck, k["c"])
+                self.nodes[(ck, fskey(k["fo"], k["fl"]))] = k
+                if k["init"]:
+                    self.init[ck] = fskey(k["fo"], k["fl"])
+                for o, r in zip(k["fo"], k["rows"]):
+                    self.rows.setdefault(fokey(o), r)
+                self.stats.setdefault(fokey(k["fo"][k["statsof"] - 1]), k["stats"])
+            elif k["kind"] == "fedge":
+                ck = fckey(k["c"])
+                self.edges.setdefault(ck, {}).setdefault(fskey(k["pre"]["fo"], k["pre"]["fl"]), {})[fopkey(k["op"])] = k
+                res = k["res"]
+                if k["op"]["name"] in ("burnthin", "conv"):
+                    self.rows.setdefault(fokey(res["new"]), res["rows"])
+                elif k["op"]["name"] == "thinlist":
+                    for o, r in zip(res["new"], res["rows"]):
+                        self.rows.setdefault(fokey(o), r)
+
+    def init_key(self, ck):
+        if ck not in self.init:
+            from cuqiverif.core import MachineryError
+            raise MachineryError("no initial state emitted for frame configuration %r" % (ck,))
+        return self.init[ck]
+
+    def out_edges(self, ck, sk):
+        d = self.edges.get(ck, {}).get(sk, {})
+        return [d[k] for k in sorted(d)]
+
+    @staticmethod
+    def post_key(sk, e):
+        return (sk[0] + tuple(fokey(o) for o in e["post"]["app"]), tuple(int(i) for i in e["post"]["fl"]))
+
+
+def fcstr(c):
+    return "g=%s/N=%d/lst=%s" % (c["g"], c["N"], c["lst"])
+
+
+def fopname(op):
+    return op["arg"] if op["name"] == "conv" else op["name"]
+
+
+def fsite(sk, op):
+    """call site: the list as it is, the receiver's abstract object, the arguments"""
+    lst = "list=%d" % len(sk[1])
+    if op["name"] == "thinlist":
+        return "%s/b=%d/t=%d" % (lst, op["b"], op["t"])
+    if op["name"] == "swaplist":
+        return lst
+    ch, cols, par, vec, _ = sk[0][op["r"] - 1]
+    recv = "recv=n%dp%dv%d" % (len(cols), par, vec)
+    if op["name"] == "burnthin":
+        return "%s/%s/b=%d/t=%d" % (lst, recv, op["b"], op["t"])
+    if op["name"] == "rhat":
+        return "%s/%s/mode=%s" % (lst, recv, op["arg"])
+    if op["name"] == "toarviz":
+        return "%s/%s/sel=%s" % (lst, recv, op["arg"])
+    return "%s/%s" % (lst, recv)
+
+
+class World:
+    """the real objects of one walk: heap (position = identity in the spec), the caller's list, the index argument"""
+
+    def __init__(self, graph, ck):
+        from cuqi.samples import Samples
+        self.geom = make_geometry(ck[0])
+        self.sk = graph.init_key(ck)
+        self.heap = [Samples(rows_array(graph.rows[ok]), geometry=self.geom) for ok in self.sk[0]]
+        self.lst = [self.heap[i - 1] for i in self.sk[1]]
+        self.idx = np.array([2, 0])             # FIdx of the spec
+        self.ops = []
+        self.results, self.counts = {}, {}      # last result / number of calls per action (same receiver, same arguments)
+
+    def ncall(self, op):
+        return self.counts.get(fopkey(op), 0)
+
+    def fingerprint(self):
+        return {"heap": [snapshot(s) for s in self.heap], "list": [id(x) for x in self.lst],
+                "list_obj": list(self.lst), "idx": np.array(self.idx, copy=True)}
+
+    def oid(self, obj):
+        for i, h in enumerate(self.heap):
+            if h is obj:
+                return i + 1
+        return 0
+
+
+def _same_snapshot(s, snap):
+    arr, par, vec, geom = snap
+    return (isinstance(s.samples, np.ndarray) and s.samples.shape == arr.shape and np.array_equal(s.samples, arr, equal_nan=True)
+            and bool(s.is_par) == par and bool(s.is_vec) == vec and s.geometry is geom)
+
+
+def frame_diff(world, before, op, caller_list_change=False):
+    """what a call altered: list of (site, expected, observed); spec independent"""
+    out = []
+    r = op["r"]
+    in_list = {id(x) for x in before["list_obj"]}
+    for i, (s, snap) in enumerate(zip(world.heap, before["heap"])):
+        if not _same_snapshot(s, snap):
+            where = "receiver" if i + 1 == r else ("arg_chain=%d" % [id(x) for x in before["list_obj"]].index(id(s)) if id(s) in in_list
+                                                   else "other=%d" % (i + 1))
+            out.append((where, {"samples": snap[0], "is_par": snap[1], "is_vec": snap[2]},
+                        {"samples": s.samples, "is_par": s.is_par, "is_vec": s.is_vec}))
+    if not caller_list_change and [id(x) for x in world.lst] != before["list"]:
+        out.append(("arg_list", {"len": len(before["list"]), "ids": [world.oid(x) for x in before["list_obj"]]},
+                    {"len": len(world.lst), "ids": [world.oid(x) if hasattr(x, "samples") else repr(x) for x in world.lst]}))
+    if not (isinstance(world.idx, np.ndarray) and world.idx.shape == before["idx"].shape and np.array_equal(world.idx, before["idx"])):
+        out.append(("arg_idx", before["idx"], world.idx))
+    return out
+
+
+def _val_equal(a, b):
+    """results of two calls: same values (types are not compared)"""
+    if hasattr(a, "samples") and hasattr(b, "samples"):
+        return (_val_equal(a.samples, b.samples) and bool(a.is_par) == bool(b.is_par) and bool(a.is_vec) == bool(b.is_vec)
+                and (a.geometry is b.geometry or a.geometry == b.geometry))
+    if isinstance(a, dict) and isinstance(b, dict):
+        return sorted(map(str, a)) == sorted(map(str, b)) and all(_val_equal(a[k], b[k]) for k in a)
+    if isinstance(a, (list, tuple)) and isinstance(b, (list, tuple)):
+        return len(a) == len(b) and all(_val_equal(x, y) for x, y in zip(a, b))
+    if isinstance(a, Exception) or isinstance(b, Exception):
+        return isinstance(a, Exception) and isinstance(b, Exception)
+    try:
+        A, B = np.asarray(a, dtype=float), np.asarray(b, dtype=float)
+    except Exception:       # noqa: BLE001
+        return True
+    return A.shape == B.shape and np.array_equal(A, B, equal_nan=True)
+
+
+_REF = {}
+
+
+def _arviz_ref(kind, arrays):
+    """reference: arviz applied directly to the spec's arrays (chains stacked in the spec's order), one variable at a time"""
+    import arviz
+    key = (kind, tuple(a.tobytes() for a in arrays), arrays[0].shape)
+    if key not in _REF:
+        d = arrays[0].shape[0]
+        with warnings.catch_warnings():
+            warnings.simplefilter("ignore")
+            fn = arviz.ess if kind == "ess" else arviz.rhat
+            _REF[key] = np.array([float(fn(np.stack([a[i] for a in arrays]))) for i in range(d)])
+    return _REF[key]
+
+
+def _num_close(a, b):
+    a, b = np.asarray(a, dtype=float).ravel(), np.asarray(b, dtype=float).ravel()
+    if a.shape != b.shape:
+        return False
+    return bool(np.all((np.isnan(a) & np.isnan(b)) | (np.abs(a - b) <= RTOL * np.maximum(1.0, np.abs(b)))))
+
+
+def frame_call(world, op, pcts):
+    """the real call(s) of one action; returns the result or the exception"""
+    name = op["name"]
+    import logging
+    logging.getLogger("arviz").setLevel(logging.ERROR)       # "Shape validation failed" for chains arviz refuses: not asserted
+    try:
+        with warnings.catch_warnings():
+            warnings.simplefilter("ignore")
+            if name == "thinlist":
+                out = []
+                for k in range(len(world.lst)):
+                    world.lst[k] = world.lst[k].burnthin(op["b"], op["t"])
+                    out.append(world.lst[k])
+                return out
+            if name == "swaplist":
+                return None
+            real = world.heap[op["r"] - 1]
+            if name == "stat":
+                out = {"mean": real.mean(), "median": real.median(), "variance": real.variance(), "std": real.std()}
+                for p_ in pcts:
+                    out["ci/%d" % p_] = real.compute_ci(p_)
+                    out["ci_width/%d" % p_] = real.ci_width(p_)
+                return out
+            if name == "ess":
+                return real.compute_ess()
+            if name == "toarviz":
+                return real.to_arviz_inferencedata(None if op["arg"] == "all" else world.idx)
+            if name == "rhat":
+                return real.compute_rhat(world.lst if op["arg"] == "list" else world.lst[0])
+            if name == "burnthin":
+                return real.burnthin(op["b"], op["t"])
+            if name == "conv":
+                return getattr(real, op["arg"])
+    except Exception as ex:          # noqa: BLE001  (exception types are not asserted)
+        return ex
+    from cuqiverif.core import MachineryError
+    raise MachineryError("unknown frame action %r emitted by the spec" % name)
+
+
+def frame_compare(ctx, graph, world, e, got, tag, case):
+    """the value of one call against the value the spec determines; returns False after a mismatch"""
+    op, res = e["op"], e["res"]
+    name = op["name"]
+    failed = isinstance(got, Exception)
+
+    def stored(sig, real, ab, rows):
+        exp = rows_array(rows)
+        if bool(real.is_par) != ab["par"] or bool(real.is_vec) != ab["vec"]:
+            ctx.mismatch("flags/" + sig, case, "representation flags (is_par, is_vec) differ from the specification",
+                         [ab["par"], ab["vec"]], [real.is_par, real.is_vec])
+            return False
+        if not (real.geometry is world.geom or real.geometry == world.geom):
+            ctx.mismatch("geometry/" + sig, case, "geometry of the result is not the geometry of the source", repr(world.geom), repr(real.geometry))
+            return False
+        a = real.samples
+        if not isinstance(a, np.ndarray) or a.shape != exp.shape or not np.array_equal(np.asarray(a, dtype=float), exp):
+            ctx.mismatch("indices/" + sig, case, "stored samples of the result are not the columns the specification selects",
+                         {"cols": ab["cols"], "array": exp}, a)
+            return False
+        return True
+
+    if name == "stat":
+        if failed:
+            ctx.mismatch("stats_raise/" + tag, case, "a statistic of an array-valued sample set raised: %r" % (got,))
+            return False
+        ok = True
+        stats = graph.stats.get(fokey(res["obj"]))
+        if stats is None:
+            from cuqiverif.core import MachineryError
+            raise MachineryError("no statistics emitted for object %r" % (res["obj"],))
+        for s in stats:
+            p = tuple(s["pos"])
+            exp = {"mean": float(frac(s["mean"])), "median": float(frac(s["med"])), "variance": float(frac(s["var"])),
+                   "std": math.sqrt(float(frac(s["var"])))}
+            for ci in s["ci"]:
+                exp["ci/%d" % ci["pct"]] = [float(frac(ci["lo"])), float(frac(ci["hi"]))]
+                exp["ci_width/%d" % ci["pct"]] = float(frac(ci["width"]))
+            for nm, ex_ in exp.items():
+                arr = np.asarray(got[nm], dtype=float)
+                try:
+                    val = [float(arr[0][p]), float(arr[1][p])] if nm.startswith("ci/") else float(arr[p])
+                except Exception:       # noqa: BLE001
+                    ctx.mismatch("stats_shape/%s/%s" % (nm, tag), case, "statistic is not per coordinate over the sample axis",
+                                 list(p), list(arr.shape))
+                    return False
+                if not _num_close(val, ex_):
+                    ctx.mismatch("stats/%s/%s/pos=%s" % (nm, tag, "x".join(map(str, p))), case,
+                                 "%s differs from the exact statistic of the stored chain" % nm, ex_, val)
+                    ok = False
+        return ok
+    if name == "ess":
+        if not res["defined"]:
+            return True
+        if failed:
+            ctx.mismatch("arviz_raise/ess/" + tag, case, "compute_ess raised for vector-form samples: %r" % (got,))
+            return False
+        ref = _arviz_ref("ess", [rows_array(graph.rows[fokey(res["obj"])])])
+        if not _num_close(got, ref):
+            ctx.mismatch("arviz_value/ess/" + tag, case, "ESS is not arviz.ess of the stored chain, variable by variable", ref, got)
+            return False
+        return True
+    if name == "rhat":
+        if not res["defined"]:
+            return True
+        if failed:
+            ctx.mismatch("arviz_raise/rhat/" + tag, case, "compute_rhat raised for chains of equal shape and geometry: %r" % (got,))
+            return False
+        sk = world.sk
+        arrays = [rows_array(graph.rows[sk[0][i - 1]]) for i in res["chains"]]
+        ref = _arviz_ref("rhat", arrays)
+        if not _num_close(got, ref):
+            ctx.mismatch("arviz_value/rhat/" + tag, case, "R-hat is not arviz.rhat of <<receiver>> followed by the caller's chains "
+                         "in the caller's order (chains %r)" % (res["chains"],), ref, got)
+            return False
+        return True
+    if name == "toarviz":
+        if not res["defined"]:
+            return True
+        if failed:
+            ctx.mismatch("arviz_raise/toarviz/" + tag, case, "to_arviz_inferencedata raised for vector-form samples: %r" % (got,))
+            return False
+        if not hasattr(got, "keys"):
+            ctx.observations["toarviz_result_not_a_mapping"] = repr(type(got))
+            return True
+        A = rows_array(graph.rows[fokey(res["obj"])])
+        names = [_name(h["name"]) for h in res["items"]]
+        keys = [str(k) for k in got.keys()]
+        if sorted(keys) != sorted(names):
+            ctx.mismatch("arviz_names/toarviz/" + tag, case, "variable names of the mapping differ", names, keys)
+            return False
+        by = {str(k): np.asarray(v, dtype=float) for k, v in got.items()}
+        for h, nm in zip(res["items"], names):
+            if by[nm].shape != A[h["row"]].shape or not np.array_equal(by[nm], A[h["row"]]):
+                ctx.mismatch("arviz_handover/toarviz/%s/var=%d" % (tag, h["row"]), case,
+                             "variable %s is not mapped to row %d of the samples" % (nm, h["row"]), A[h["row"]], by[nm])
+                return False
+        return True
+    if name == "burnthin":
+        if res["err"]:
+            if not failed:
+                ctx.mismatch("refusal/burnthin/" + tag, case, "burn-in >= number of samples must be refused; the call returned", "an exception",
+                             getattr(getattr(got, "samples", None), "shape", None))
+                return False
+            return True
+        if failed:
+            ctx.mismatch("raises/burnthin/" + tag, case, "the call raised although the specification defines a result: %r" % (got,))
+            return False
+        return stored("burnthin/" + tag, got, res["new"], res["rows"])
+    if name == "conv":
+        if failed:
+            ctx.mismatch("raises/%s/%s" % (op["arg"], tag), case, "the conversion raised although the specification defines a result: %r" % (got,))
+            return False
+        return stored("%s/%s" % (op["arg"], tag), got, res["new"], res["rows"])
+    if name == "thinlist":
+        if failed:
+            ctx.mismatch("raises/burnthin/" + tag, case, "burnthin of a list element raised: %r" % (got,))
+            return False
+        return all(stored("burnthin/%s/elem=%d" % (tag, k), g_, ab, rw) for k, (g_, ab, rw) in enumerate(zip(got, res["new"], res["rows"])))
+    return True
+
+
+def frame_step(ctx, graph, ck, world, e, pcts, calls=1, check=True):
+    """One action of the frame machine on the real world: fingerprint, call, compare, fingerprint; `calls` > 1 repeats the
+    call immediately with the same receiver and the same argument objects.  Returns False after a mismatch."""
+    c = graph.configs[ck]
+    op = e["op"]
+    name = op["name"]
+    pname = fopname(op)
+    site = "%s/%s" % (fcstr(c), fsite(world.sk, op))
+    case = {"kind": "frame", "c": c, "ops": world.ops + [op]}
+    changes_state = bool(e["post"]["app"]) or tuple(e["post"]["fl"]) != world.sk[1]
+    first = None
+    for n in range(calls if not changes_state else 1):
+        before = world.fingerprint()
+        got = frame_call(world, op, pcts)
+        if name == "swaplist":                  # the caller's own assignment lst[0] = other (no library call)
+            world.lst[0] = world.heap[e["res"]["spare"] - 1]
+        if not check:
+            first = got
+            break
+        ctx.case(("frame", name, ck, world.sk, fopkey(op)), facet="frame_" + name)
+        ctx.facets["frame_calls"] = ctx.facets.get("frame_calls", 0) + 1
+        tag = "frame/%s/call=%d" % (site, world.ncall(op) + 1)
+        for where, exp, obs in frame_diff(world, before, op, caller_list_change=(name in ("thinlist", "swaplist"))):
+            ctx.mismatch("frame/%s/%s/%s" % (pname, site, where), case,
+                         "the call altered %s: every operation of a sample set leaves its receiver and its arguments unchanged"
+                         % {"receiver": "its receiver", "arg_list": "the caller's list of chains", "arg_idx": "the index array passed in"}.get(
+                             where, "a chain passed in" if where.startswith("arg_chain") else "an unrelated sample set"), exp, obs)
+            return False
+        if not frame_compare(ctx, graph, world, e, got, tag, case):
+            return False
+        prev = world.results.get(fopkey(op))
+        if prev is not None and not changes_state and not _val_equal(prev, got):
+            ctx.mismatch("repeat/%s/%s" % (pname, site), case, "a repeated call with the same receiver and the same argument objects "
+                         "returned a different result (call %d)" % (world.ncall(op) + 1), prev, got if not hasattr(got, "samples") else got.samples)
+            return False
+        if prev is not None and not changes_state:
+            ctx.facets["frame_repeated_calls"] = ctx.facets.get("frame_repeated_calls", 0) + 1
+        world.results[fopkey(op)] = got
+        world.counts[fopkey(op)] = world.ncall(op) + 1
+        if name == "rhat" and e["res"]["defined"]:
+            ctx.facets["frame_rhat_defined/%s=%d" % (op["arg"], len(world.lst))] = \
+                ctx.facets.get("frame_rhat_defined/%s=%d" % (op["arg"], len(world.lst)), 0) + 1
+            if any(len(world.sk[0][i - 1][1]) < c["N"] for i in e["res"]["chains"]):
+                ctx.facets["frame_rhat_on_thinned"] = ctx.facets.get("frame_rhat_on_thinned", 0) + 1
+            if any(o["name"] == "swaplist" for o in world.ops):
+                ctx.facets["frame_rhat_after_swap"] = ctx.facets.get("frame_rhat_after_swap", 0) + 1
+        first = got if first is None else first
+    # the abstract post state: objects the spec keeps are appended to the real heap; the list must be the spec's list
+    if changes_state:
+        news = first if name == "thinlist" else ([] if name == "swaplist" else [first])
+        if isinstance(first, Exception) or len(news) != len(e["post"]["app"]):
+            from cuqiverif.core import MachineryError
+            raise MachineryError("frame replay lost track of the heap at %s" % site)
+        world.heap.extend(news)
+        world.sk = FrameGraph.post_key(world.sk, e)
+        if name in ("thinlist", "swaplist"):    # the caller changed its list: earlier R-hat results are no longer comparable
+            world.results, world.counts = {}, {}
+    if check:
+        obs = [world.oid(x) for x in world.lst]
+        if obs != [int(i) for i in e["post"]["fl"]]:
+            ctx.mismatch("frame/%s/%s/arg_list" % (pname, site), case, "after the call the caller's list does not hold the objects "
+                         "the specification says (identities, in order)", list(e["post"]["fl"]), obs)
+            return False
+    world.ops = world.ops + [op]
+    return True
+
+
+def warm_edges(graph, ck, sk, e):
+    """the non state-changing actions (statistics, ESS, mapping, R-hat with the list) on the receiver of the state-changing
+    action e (receiver 1 for the caller's own step): called BEFORE e, so that anything an implementation remembers from a
+    first use is in place when the result of e, or the altered list, is used"""
+    r = e["op"]["r"] or 1
+    kinds = (("stat", ""), ("ess", ""), ("toarviz", "all"), ("rhat", "list")) if e["op"]["r"] else (("rhat", "list"),)
+    return [x for x in graph.out_edges(ck, sk) if x["op"]["r"] == r and fopkey(x["op"])[0::4] in kinds]
+
+
+def new_world(graph, ck, path=(), pcts=(), warm=False):
+    """a fresh real world in the state reached by `path` (edges; re-executed by real calls, not compared again - they were
+    compared when the path was found); warm: every state-changing call is preceded by the warm-up calls on its receiver"""
+    w = World(graph, ck)
+    for e in path:
+        for x in (warm_edges(graph, ck, w.sk, e) if warm else ()):
+            frame_step(None, graph, ck, w, x, pcts, check=False)
+        frame_step(None, graph, ck, w, e, pcts, check=False)
+    return w
+
+
+def frame_selftest(graph, ck):
+    """the fingerprints must notice an inserted list element, a changed sample and a changed flag (machinery guard)"""
+    from cuqiverif.core import MachineryError
+    w = new_world(graph, ck)
+    op = {"name": "rhat", "r": 1, "b": 0, "t": 1, "arg": "list"}
+    b = w.fingerprint()
+    w.lst.insert(0, w.heap[0])
+    d1 = [x[0] for x in frame_diff(w, b, op)]
+    w = new_world(graph, ck)
+    b = w.fingerprint()
+    w.heap[0].samples[0, 0] += 1
+    w.heap[w.sk[1][0] - 1].samples = w.heap[w.sk[1][0] - 1].samples[:, ::-1]
+    w.idx.sort()
+    d2 = [x[0] for x in frame_diff(w, b, op)]
+    if d1 != ["arg_list"] or d2 != ["receiver", "arg_chain=0", "arg_idx"]:
+        raise MachineryError("frame fingerprints do not detect planted alterations: %r %r" % (d1, d2))
+
+
+def replay_frame_config(ctx, graph, ck, n_walks, rng, pcts):
+    """BFS over the states of one configuration (each state reached in a fresh real world by real calls): in every state
+    every non-state-changing action is called, called again immediately, and called a third time after all the others;
+    every state-changing action is taken once from a fresh world after the statistics / ESS / mapping / R-hat calls on its
+    receiver and a seeded choice of two other calls.  Then seeded random walks of four actions."""
+    sk0 = graph.init_key(ck)
+    paths = {sk0: []}
+    queue = [sk0]
+    n_edges = n_states = 0
+    while queue:
+        sk = queue.pop(0)
+        out = graph.out_edges(ck, sk)
+        pure = [e for e in out if FrameGraph.post_key(sk, e) == sk]
+        moving = [e for e in out if FrameGraph.post_key(sk, e) != sk]
+        w = new_world(graph, ck, paths[sk], pcts, warm=True)
+        for e in pure:                                # first call and immediate repetition (arviz: in every third state)
+            n_edges += 1
+            if not frame_step(ctx, graph, ck, w, e, pcts, calls=2 if e["op"]["name"] not in ("ess", "rhat") or n_states % 3 == 0 else 1):
+                return n_edges, 0
+        n_states += 1
+        for e in pure:                                # again, after every other operation has run on the same objects
+            if not frame_step(ctx, graph, ck, w, e, pcts, calls=1):
+                return n_edges, 0
+        for e in moving:
+            n_edges += 1
+            w = new_world(graph, ck, paths[sk], pcts)
+            for e0 in warm_edges(graph, ck, sk, e) + rng.sample(pure, min(2, len(pure))):
+                if not frame_step(ctx, graph, ck, w, e0, pcts):
+                    return n_edges, 0
+            if not frame_step(ctx, graph, ck, w, e, pcts):
+                return n_edges, 0
+            pk = w.sk
+            if pk not in paths:
+                paths[pk] = paths[sk] + [e]
+                queue.append(pk)
+    missing = [s for (cc, s) in graph.nodes if cc == ck and s not in paths]
+    if missing:
+        from cuqiverif.core import MachineryError
+        raise MachineryError("frame states of %r emitted by TLC were not reached by the replay: %r" % (ck, missing[:2]))
+    walks = 0
+    for _ in range(n_walks):
+        w = new_world(graph, ck)
+        for _depth in range(4):
+            out = graph.out_edges(ck, w.sk)
+            # half of the steps repeat an earlier action of the walk when it is still enabled in the state
+            again = [e for e in out if any(fopkey(e["op"]) == fopkey(o) for o in w.ops)]
+            e = again[rng.randrange(len(again))] if again and rng.random() < 0.4 else out[rng.randrange(len(out))]
+            if not frame_step(ctx, graph, ck, w, e, pcts):
+                return n_edges, walks
+        walks += 1
+    return n_edges, walks
+
+
+_FGRAPHS = {}
+# thorough: all lists and geometries with one kept result, and a deep instance (two kept results, chains of 10 samples)
+FRAME_CFGS = {"quick": ["frame_quick"], "thorough": ["frame_thorough", "frame_deep"]}
+
+
+def _fgraph(ctx, tier):
+    from cuqiverif import tlc as _t
+    from cuqiverif.core import MachineryError
+    if tier not in _FGRAPHS:
+        cases = []
+        for cfg in FRAME_CFGS[tier]:
+            res = ctx.tlc("SamplesOps", cfg="SamplesOps.%s.cfg" % cfg, workers=16, timeout=1500, heap="8g")
+            ctx.model_must_hold(res, "SamplesOps." + cfg)
+            cases += res.cases
+            _t.cleanup(res)
+        g = FrameGraph(cases)
+        pcts = sorted({ci["pct"] for k in cases if k["kind"] == "fnode" for ci in k["stats"][0]["ci"]})
+        if not g.nodes or not g.edges:
+            raise MachineryError("SamplesOps (frame machine) emitted no nodes / edges")
+        _FGRAPHS[tier] = (g, pcts)
+    return _FGRAPHS[tier]
+
+
+def run_frame(ctx, only=None):
+    from cuqiverif.core import MachineryError
+    graph, pcts = _fgraph(ctx, ctx.tier if only is None else "quick")
+    if only is not None and only not in graph.configs:
+        graph, pcts = _fgraph(ctx, "thorough")
+    n_walks = 25 if ctx.tier == "quick" or only is not None else 150
+    tot_e = tot_w = 0
+    for ck in sorted(graph.configs):
+        if only is not None and ck != only:
+            continue
+        frame_selftest(graph, ck)
+        rng = random.Random("frame/%s/%r" % (ctx.seed, ck))
+        with contextlib.redirect_stdout(io.StringIO()):
+            ne, nw = replay_frame_config(ctx, graph, ck, n_walks, rng, pcts)
+        tot_e += ne
+        tot_w += nw
+    if only is None and not ctx.violations:
+        need = ["frame_" + n for n in FRAME_OPS] + ["frame_repeated_calls", "frame_rhat_on_thinned", "frame_rhat_after_swap", "frame_rhat_defined/single=1"] + \
+               ["frame_rhat_defined/list=%d" % n for n in (1, 2, 3)]
+        miss = [n for n in need if not ctx.facets.get(n)]
+        if miss:
+            raise MachineryError("vacuous frame replay: no case for %r" % (miss,))
+    return tot_e, tot_w
+
+
+# ---------------------------------------------------------------------------------------------------------------
 # code -> spec: recorded executions validated by TLC against TraceSamplesOps.tla
 def validate_events(ctx, events, source):
     """All events must be transitions of the spec; returns the number of accepted events."""
@@ -515,9 +1108,14 @@ def validate_events(ctx, events, source):
         k = idx[-1] - 1
         e = rest[k]
         accepted += k
-        ctx.mismatch("trace/%s/%s/n=%d/par=%d/vec=%d/b=%d/t=%d" % (source, e["op"], e["pre"]["n"], e["pre"]["par"], e["pre"]["vec"], e["b"], e["t"]),
+        fr = e.get("frame", {})
+        framed = fr.get("recv", True) and fr.get("ids", True) and fr.get("args", True) and fr.get("nl_pre") == fr.get("nl_post")
+        ctx.mismatch("trace/%s/%s/n=%d/par=%d/vec=%d/b=%d/t=%d%s%s" % (source, e["op"], e["pre"]["n"], e["pre"]["par"], e["pre"]["vec"], e["b"], e["t"],
+                                                                  "/list=%d" % fr.get("nl_pre", 0) if e["op"] == "rhat" else "",
+                                                                  "" if framed else "/frame"),
                      {"kind": "trace", "source": source, "event": {k2: (v if k2 != "cols" else v[:50]) for k2, v in e.items()}},
-                     "a recorded call is not a transition of SamplesOps (TraceSamplesOps rejects the event)",
+                     "a recorded call is not a transition of SamplesOps (TraceSamplesOps rejects the event%s)"
+                     % ("" if framed else ": the call altered its receiver or its arguments, frame " + repr(fr)),
                      expected="IsEvent", observed={k2: (v if k2 != "cols" else v[:50]) for k2, v in e.items()})
         rest = rest[k + 1:]
     return accepted
@@ -529,7 +1127,7 @@ def run_traces(ctx):
     from cuqiverif import tlc as _t
     from cuqiverif.core import MachineryError
     if not T.install():
-        raise MachineryError("Samples.burnthin / funvals / vector / parameters not found: recorder targets disappeared")
+        raise MachineryError("Samples.burnthin / funvals / vector / parameters / compute_rhat not found: recorder targets disappeared")
     try:
         del T.EVENTS[:]
         with contextlib.redirect_stdout(io.StringIO()):
@@ -539,8 +1137,13 @@ def run_traces(ctx):
         T.uninstall()
     if not events:
         raise MachineryError("the random driver recorded no events")
+    n_rhat = {k: sum(1 for e in events if e["op"] == "rhat" and not e.get("single") and e["frame"]["nl_pre"] == k) for k in (1, 2, 3)}
+    n_rhat["single"] = sum(1 for e in events if e["op"] == "rhat" and e.get("single"))
+    if not all(n_rhat.values()):
+        raise MachineryError("the random driver recorded no compute_rhat event for some argument form: %r" % (n_rhat,))
     acc = validate_events(ctx, events, "driver")
     ctx.observe("trace_events_random_driver", len(events))
+    ctx.observe("trace_events_rhat_by_list_length", n_rhat)
     if ctx.tier == "thorough":
         import cuqi
         repo = os.path.dirname(os.path.dirname(os.path.realpath(cuqi.__file__)))
@@ -584,7 +1187,13 @@ def _replay_event(e):
     try:
         del T.EVENTS[:]
         try:
-            s.burnthin(e["b"], e["t"]) if e["op"] == "burnthin" else getattr(s, e["op"])
+            if e["op"] == "rhat":
+                nl = max(1, e.get("frame", {}).get("nl_pre", 1))
+                others = [Samples(np.random.RandomState(2 + k).standard_normal(s.samples.shape), geometry=s.geometry, is_par=s.is_par,
+                                  is_vec=s.is_vec) for k in range(nl)]
+                s.compute_rhat(others[0] if e.get("single") else others)
+            else:
+                s.burnthin(e["b"], e["t"]) if e["op"] == "burnthin" else getattr(s, e["op"])
         except Exception:       # noqa: BLE001
             pass
         return T.EVENTS[0]
@@ -617,6 +1226,8 @@ def run(ctx, only=None):
         graph = _graph(ctx, "quick")
         if only not in graph.configs:
             graph = _graph(ctx, "thorough")
+    # the frame machine first: its violations stand even if a wrapper of the main replay gives up afterwards
+    fr_e, fr_w = run_frame(ctx) if only is None else (0, 0)
     rng = random.Random(ctx.seed)
     n_walks = 150 if ctx.tier == "quick" or only is not None else 1500
     tot_e = tot_w = 0
@@ -638,15 +1249,29 @@ def run(ctx, only=None):
         if es:
             ctx.sample({"edge": {k: es[len(es) // 2][k] for k in ("c", "pre", "op", "err", "post")}})
             break
+    if only is None:
+        fg = _fgraph(ctx, ctx.tier)[0]
+        for ck in sorted(fg.edges):
+            es = [e for sk in sorted(fg.edges[ck]) for e in fg.out_edges(ck, sk) if e["op"]["name"] == "rhat" and e["res"]["defined"]
+                  and e["op"]["arg"] == "list" and len(sk[0]) > 4 and len(sk[1]) == 2]
+            if es:
+                ctx.sample({"frame_edge": {"c": es[-1]["c"], "pre": es[-1]["pre"], "op": es[-1]["op"], "res": es[-1]["res"], "post": es[-1]["post"]}})
+                break
     ctx.rule = ("one case per (configuration, pre-object, action with its arguments) emitted by TLC from SamplesOps.tla, per "
                 "(configuration, object) for statistics and per (configuration, object, arviz entry point, kwargs) for the "
-                "hand-over; every transition of the reachable graph is replayed from a real object reached by real calls")
+                "hand-over; every transition of the reachable graph is replayed from a real object reached by real calls; "
+                "frame machine: one case per (configuration, state <<heap, list>>, action with receiver and arguments), every "
+                "edge of its graph replayed (non state-changing ones three times on the same objects)")
     ctx.exhaustive = True
-    ctx.traces = tot_e + tot_w + n_trace
+    ctx.traces = tot_e + tot_w + fr_e + fr_w + n_trace
+    ctx.observe("frame_edges_replayed", fr_e)
+    ctx.observe("frame_random_walks_of_4", fr_w)
     ctx.observe("trace_events_accepted", n_trace)
     ctx.observe("edges_replayed", tot_e)
     ctx.observe("random_chains_of_3", tot_w)
     ctx.assumptions += ["chain lengths, burn-in / thinning boxes, geometry kinds and credibility levels bounded by the cfg",
+                        "frame machine: chains of 8 (10) samples, lists of 1..3 chains, at most 1 (2) results of library calls "
+                        "kept as further receivers; R-hat / ESS values: arviz applied to the spec's arrays is the reference",
                         "arviz's own association name -> value in the Dataset it returns (trusted base)",
                         "numpy float64 evaluation of TLC's exact rationals (comparison rtol 1e-12)"]
     ctx.trusted_base.append("arviz (ess / rhat numerics; only the hand-over and the order are checked)")
@@ -655,6 +1280,8 @@ def run(ctx, only=None):
 def replay(ctx, case):
     if case.get("kind") == "model":
         return run(ctx)
+    if case.get("kind") == "frame":
+        return run_frame(ctx, only=fckey(case["c"]))
     if case.get("kind") == "trace":
         return validate_events(ctx, [_replay_event(case["event"])], case.get("source", "replay"))
     return run(ctx, only=ckey(case["c"]))
